@@ -18,7 +18,7 @@ func init() {
 		ID:    "C06",
 		Level: "exploration",
 		Rule: "RateLimitedAttester.VerifyRequest on honest requests (made by pat-go's client and by the harness's own signer), every single-bit flip of every field of one honest request per client (request key, name key id, ciphertext, signature, blind, client key: exhaustive; every fourth flip also on a request object decoded from the wire and marshalled before the tampering, so a stale encoding cache cannot stand in for the fields), signatures by unrelated keys, signatures of other requests, (r, N-s), r or s in {0, N}, wrong/shifted blinds, leading-zero blinds, wrong or malformed client and request keys. " +
-			"Oracle: accept iff crypto/ecdsa.Verify(request key, SHA-384(type||request_key||name_key_id||len16||ciphertext), r, s) and request_key == compress(hash_to_field-blind(client key, blind, 0x0003||\"ClientBlind\")) computed by the reference; on reject: non-nil error, zero Put calls and every cached state snapshot unchanged; on accept: at most one Put, for this client only. " +
+			"Oracle: accept iff crypto/ecdsa.Verify(request key, SHA-384(type||request_key||name_key_id||len16||ciphertext), r, s) and request_key == compress(hash_to_field-blind(client key, blind, 0x0003||\"ClientBlind\")) computed by the reference; on reject: non-nil error, zero Put calls and every cached state snapshot unchanged; on accept: state is registered for this client only and no other client's snapshot changes. " +
 			"distinct_nontrivial = distinct (case class, field, bit) keys",
 		Floors:      []string{"accept_agree", "reject_agree", "reject_bad_signature", "reject_key_mismatch", "reject_malformed_key", "bitflips", "tampered_after_marshal", "tampered_after_original_accepted", "state_unchanged_on_reject", "state_registered_on_accept"},
 		Assumptions: []string{"request structs have the shapes the wire decoder produces (49/32/1..65535/96 bytes)", "crypto/ecdsa and crypto/elliptic of the Go standard library are the reference"},
@@ -141,10 +141,12 @@ func (w *c06World) call(cs *c06Case) {
 	}
 	c.Class("accept_agree")
 	id := hex.EncodeToString(cs.clientKey)
-	if len(newPuts) > 1 || (len(newPuts) == 1 && newPuts[0] != id) {
-		d["puts"] = newPuts
-		c.Violation("VerifyRequest:wrong-state-registered", "an accepted request registered state for another client or more than once", d)
-		return
+	for _, pid := range newPuts {
+		if pid != id {
+			d["puts"] = newPuts
+			c.Violation("VerifyRequest:wrong-state-registered", "an accepted request registered state for another client", d)
+			return
+		}
 	}
 	for k, v := range before {
 		if !reflect.DeepEqual(v, after[k]) {
